@@ -135,7 +135,7 @@ def streams(pid, tier, rng, scale=1):
             if op == 'clamp':
                 sg = lambda v: v - (1 << n) if v >> (n - 1) else v
                 if sg(vals[1]) > sg(vals[2]): continue      # documented precondition (asserted): min <= max
-            if ty == 'p32' and op in ('sin', 'cos', 'tan', 'Float_sin', 'Float_cos', 'Float_tan'):
+            if ty == 'p32' and op in ('sin', 'cos', 'tan', 'Float_sin', 'Float_cos', 'Float_tan', 'sin_cos'):
                 a_ = vals[0] if vals[0] < (1 << 31) else (1 << 32) - vals[0]
                 if a_ >= 0x7d400000 and vals[0] != (1 << 31): continue   # |x| >= 393216: explicit todo!() branch, outside C15/C16
             lines.append(ty + ' ' + op + ' ' + ' '.join('%x' % v for v in vals))
